@@ -65,8 +65,13 @@ theorem htmlTokenize?_text_eof {tx : Bytes} (hne : tx ≠ []) (h60 : ∀ b ∈ t
     simp [Tokenizer.new, Tokenizer.isTagLike, kindOf]
   have hstep2 : tgStep (next (Tokenizer.new tx.toArray)) = .stop [] := by
     have hnn : next (next (Tokenizer.new tx.toArray)) =
-        { Tokenizer.new tx.toArray with rawS := tx.length, rawE := tx.length, err := true, dataS := tx.length,
-          dataE := tx.length, token := .error } := by
+        ({ Tokenizer.new tx.toArray with
+            rawS := tx.length
+            rawE := tx.length
+            err := true
+            dataS := tx.length
+            dataE := tx.length
+            token := .error } : Tokenizer) := by
       rw [hn]
       simp [next, nextGo, Tokenizer.new]
     have inv2 : Inv (next (next (Tokenizer.new tx.toArray))) := next_inv' _ inv1
@@ -78,9 +83,463 @@ theorem htmlTokenize?_text_eof {tx : Bytes} (hne : tx ≠ []) (h60 : ∀ b ∈ t
     rw [h1, h2, hnn]
     simp [Tokenizer.new]
   unfold htmlTokenize?
-  rw [show tx.length + 2 = (tx.length - 1 + 1) + 1 by omega, tokenizeGo_succ, hstep1]
+  have efuel : tx.length + 2 = (tx.length + 1) + 1 := rfl
+  rw [efuel, tokenizeGo_succ, hstep1]
   simp only
   rw [tokenizeGo_succ, hstep2]
   rfl
+
+/-! ### the `Simple` grammar, parametrised by the closed-form laws of the readers -/
+
+/-- lower-cased tag name as the tokenizer computes it -/
+def lowerName (d : Bytes) : Bytes := d.map Tokenizer.lowerByte
+
+/-- side conditions of the grammar and the facts the readers satisfy under them -/
+structure Laws where
+  /-- display name + raw attribute text of an ordinary (not raw-text) start tag -/
+  StartOK : Bytes → Bytes → Prop
+  SelfOK : Bytes → Bytes → Prop
+  EndOK : Bytes → Prop
+  /-- display name, attribute text and content of a raw-text element -/
+  RawOK : Bytes → Bytes → Bytes → Prop
+  /-- a comment or a declaration -/
+  OtherOK : Bytes → Prop
+  start_closed : ∀ d a, StartOK d a →
+    Closed (startTok (lowerName d) d a).raw [startTok (lowerName d) d a] ∧ StartsOpener (startTok (lowerName d) d a).raw
+  self_closed : ∀ d a, SelfOK d a →
+    Closed (selfTok (lowerName d) d a).raw [selfTok (lowerName d) d a] ∧ StartsOpener (selfTok (lowerName d) d a).raw
+  end_closed : ∀ d, EndOK d → Closed (endTok (lowerName d) d).raw [endTok (lowerName d) d]
+  raw_closed : ∀ d a c, RawOK d a c →
+    Closed ((startTok (lowerName d) d a).raw ++ c ++ (endTok (lowerName d) d).raw)
+      (startTok (lowerName d) d a :: (textToks c ++ [endTok (lowerName d) d])) ∧
+    StartsOpener (startTok (lowerName d) d a).raw
+  other_closed : ∀ x, OtherOK x → Closed x [⟨.other, x, []⟩] ∧ StartsOpener x
+  /-- raw-text content holds no `<` -/
+  raw_noLt : ∀ d a c, RawOK d a c → ∀ b ∈ c, b ≠ 60
+
+/-- how the tokenizer sees a verbatim piece of a `Simple` document: a comment / declaration (it holds a `<`) is one
+token of kind `other`, a text one text token -/
+def vtU (raw : Bytes) : List Tok := if raw.contains 60 then [⟨.other, raw, []⟩] else textToks raw
+
+theorem vtU_lossless : VtLossless vtU := by
+  intro raw
+  unfold vtU
+  split
+  · simp [rawsOf]
+  · exact rawsOf_textToks raw
+
+/-- a text node (syntactically: a verbatim piece without `<`) -/
+def isTextB : Node → Bool
+  | .verb raw _ => !raw.contains 60
+  | _ => false
+
+section
+variable (L : Laws)
+
+mutual
+  /-- **the `Simple` grammar**: text = non-empty, free of `<`; comments / declarations, ordinary elements (normal, void,
+  self-closing), raw-text elements under the side conditions of `L`; the node name is the lower-cased display name -/
+  def SimpleN : Node → Prop
+    | .verb raw _ => (raw ≠ [] ∧ raw.contains 60 = false) ∨ L.OtherOK raw
+    | .el nm d a knd cs =>
+      nm = lowerName d ∧
+      (match knd with
+       | .normal => L.StartOK d a ∧ L.EndOK d ∧ SimpleL cs
+       | .void => L.StartOK d a
+       | .selfClosing => L.SelfOK d a
+       | .raw => L.RawOK d a (serializeList cs))
+  /-- … and no two adjacent text nodes -/
+  def SimpleL : List Node → Prop
+    | [] => True
+    | n :: ns =>
+      SimpleN n ∧
+      (match ns with
+       | [] => True
+       | m :: _ => ¬(isTextB n = true ∧ isTextB m = true)) ∧
+      SimpleL ns
+end
+
+def lastIsText : List Node → Bool
+  | [] => false
+  | [n] => isTextB n
+  | _ :: ns => lastIsText ns
+
+theorem other_contains {x : Bytes} (h : L.OtherOK x) : x.contains 60 = true := by
+  obtain ⟨c, rest, rfl, _⟩ := (L.other_closed x h).2
+  simp
+
+mutual
+  theorem SimpleN_tok : ∀ (n : Node), SimpleN L n →
+      ∀ (y : Bytes) (ts' : List Tok) (r : Bytes), htmlTokenize? y = some (ts', r) →
+        (isTextB n = true → StartsOpener y ∨ y = []) →
+        htmlTokenize? (serialize n ++ y) = some (tokensOf vtU n ++ ts', r) ∧
+        (isTextB n = false → StartsOpener (serialize n))
+    | .verb raw m, h, y, ts', r, hy, hop => by
+      unfold SimpleN at h
+      rcases h with ⟨hne, h60⟩ | ho
+      · have h60' : ∀ b ∈ raw, b ≠ 60 := by
+          intro b hb e; subst e
+          have : raw.contains 60 = true := by simpa using hb
+          rw [h60] at this; cases this
+        have hemp : raw.isEmpty = false := by cases raw with
+          | nil => exact absurd rfl hne
+          | cons _ _ => rfl
+        have hmem : 60 ∉ raw := fun hm => h60' 60 hm rfl
+        refine ⟨?_, fun hv => by simp [isTextB, hmem] at hv⟩
+        have htok : tokensOf vtU (Node.verb raw m) = [⟨.text, raw, []⟩] := by
+          simp [tokensOf, vtU, hmem, textToks, hemp]
+        rw [htok]
+        simp only [serialize]
+        rcases hop (by simp [isTextB, hmem]) with hso | hnil
+        · obtain ⟨c, rest, hy0, hc⟩ := hso
+          simpa using htmlTokenize?_text hne h60' hy0 hc hy
+        · subst hnil
+          rw [htmlTokenize?_nil] at hy
+          simp only [Option.some.injEq, Prod.mk.injEq] at hy
+          obtain ⟨rfl, rfl⟩ := hy
+          simpa using htmlTokenize?_text_eof hne h60'
+      · obtain ⟨hc, hso⟩ := L.other_closed raw ho
+        have hcont := other_contains L ho
+        have hmem : 60 ∈ raw := by simpa using hcont
+        refine ⟨?_, fun _ => by simpa [serialize] using hso⟩
+        have := htmlTokenize?_append hc hy
+        have htok : tokensOf vtU (Node.verb raw m) = [⟨.other, raw, []⟩] := by
+          simp [tokensOf, vtU, hmem]
+        rw [htok]
+        simpa [serialize] using this
+    | .el nm d a knd cs, h, y, ts', r, hy, _ => by
+      unfold SimpleN at h
+      obtain ⟨hnm, h⟩ := h
+      subst hnm
+      cases knd with
+      | raw =>
+        simp only at h
+        obtain ⟨hc, hso⟩ := L.raw_closed d a _ h
+        refine ⟨?_, fun _ => ?_⟩
+        · have := htmlTokenize?_append hc hy
+          simp only [serialize, tokensOf]
+          simp only [startTok, endTok] at this ⊢
+          simpa [List.append_assoc] using this
+        · have := startsOpener_append hso (serializeList cs ++ (endTok (lowerName d) d).raw)
+          simpa [serialize, startTok, endTok, List.append_assoc] using this
+      | void =>
+        simp only at h
+        obtain ⟨hc, hso⟩ := L.start_closed d a h
+        refine ⟨?_, fun _ => by simpa [serialize, startTok] using hso⟩
+        have := htmlTokenize?_append hc hy
+        simpa [serialize, tokensOf, startTok] using this
+      | selfClosing =>
+        simp only at h
+        obtain ⟨hc, hso⟩ := L.self_closed d a h
+        refine ⟨?_, fun _ => by simpa [serialize, selfTok] using hso⟩
+        have := htmlTokenize?_append hc hy
+        simpa [serialize, tokensOf, selfTok] using this
+      | normal =>
+        simp only at h
+        obtain ⟨hs, he, hcs⟩ := h
+        obtain ⟨hcS, hoS⟩ := L.start_closed d a hs
+        have hcE := L.end_closed d he
+        have h1 := htmlTokenize?_append hcE hy
+        have h2 := SimpleL_tok cs hcs ((endTok (lowerName d) d).raw ++ y) _ r h1
+          (fun _ => Or.inl (startsOpener_append (startsOpener_endTok _ d) y))
+        have h3 := htmlTokenize?_append hcS h2
+        refine ⟨?_, fun _ => ?_⟩
+        · simp only [serialize, tokensOf]
+          simp only [startTok, endTok] at h3 ⊢
+          simpa [List.append_assoc] using h3
+        · have := startsOpener_append hoS (serializeList cs ++ (endTok (lowerName d) d).raw)
+          simpa [serialize, startTok, endTok, List.append_assoc] using this
+  theorem SimpleL_tok : ∀ (ns : List Node), SimpleL L ns →
+      ∀ (y : Bytes) (ts' : List Tok) (r : Bytes), htmlTokenize? y = some (ts', r) →
+        (lastIsText ns = true → StartsOpener y ∨ y = []) →
+        htmlTokenize? (serializeList ns ++ y) = some (tokensOfList vtU ns ++ ts', r)
+    | [], _, y, ts', r, hy, _ => by simpa [serializeList, tokensOfList] using hy
+    | [n], h, y, ts', r, hy, hop => by
+      unfold SimpleL at h
+      have := (SimpleN_tok n h.1 y ts' r hy (fun hv => hop (by simpa [lastIsText] using hv))).1
+      simpa [serializeList, tokensOfList] using this
+    | n :: m :: rest, h, y, ts', r, hy, hop => by
+      unfold SimpleL at h
+      obtain ⟨hn, hadj, hrest⟩ := h
+      simp only at hadj
+      have ih := SimpleL_tok (m :: rest) hrest y ts' r hy (fun hv => hop (by simpa [lastIsText] using hv))
+      have hfollow : isTextB n = true → StartsOpener (serializeList (m :: rest) ++ y) ∨
+          serializeList (m :: rest) ++ y = [] := by
+        intro hv
+        have hm : isTextB m = false := by
+          cases hb : isTextB m with
+          | false => rfl
+          | true => exact absurd ⟨hv, hb⟩ hadj
+        have hmS : SimpleN L m := by unfold SimpleL at hrest; exact hrest.1
+        have := (SimpleN_tok m hmS [] [] [] htmlTokenize?_nil (fun hv' => by rw [hm] at hv'; cases hv')).2 hm
+        exact Or.inl (by
+          simpa [serializeList, List.append_assoc] using startsOpener_append this (serializeList rest ++ y))
+      have := (SimpleN_tok n hn _ _ r ih hfollow).1
+      simpa [serializeList, tokensOfList, List.append_assoc] using this
+end
+
+/-- **`tokenize (serialize d) = tokensOf d` for every `Simple` document** — text (also at the very end), comments,
+declarations, ordinary and raw-text elements, any names and attribute texts the laws cover, any shape and size. -/
+theorem tokenize_serialize_of_laws (doc : List Node) (hs : SimpleL L doc) :
+    htmlTokenize (serializeList doc) = (tokensOfList vtU doc, []) := by
+  have := SimpleL_tok L doc hs [] [] [] htmlTokenize?_nil (fun _ => Or.inr rfl)
+  simp only [List.append_nil] at this
+  simp [htmlTokenize, this]
+
+mutual
+  theorem SimpleN_noLt : ∀ (n : Node), SimpleN L n →
+      ∀ t ∈ tokensOf vtU n, ¬(t.kind = .text ∧ hasLt t.raw = true)
+    | .verb raw m, h, t, ht => by
+      simp only [tokensOf, vtU] at ht
+      split at ht
+      · simp only [List.mem_cons, List.not_mem_nil, or_false] at ht
+        subst ht; simp
+      · rename_i hc
+        unfold textToks at ht
+        split at ht
+        · cases ht
+        · simp only [List.mem_cons, List.not_mem_nil, or_false] at ht
+          subst ht
+          intro hh
+          have := hh.2
+          simp only [hasLt] at this
+          exact hc this
+    | .el nm d a knd cs, h, t, ht => by
+      unfold SimpleN at h
+      cases knd with
+      | raw =>
+        simp only [tokensOf, List.mem_cons, List.mem_append, List.not_mem_nil, or_false] at ht
+        rcases ht with e | e | e
+        · subst e; simp [startTok]
+        · simp only at h
+          have hno := L.raw_noLt d a _ h.2
+          unfold textToks at e
+          split at e
+          · cases e
+          · simp only [List.mem_cons, List.not_mem_nil, or_false] at e
+            subst e
+            intro hh
+            have := hh.2
+            simp only [hasLt, List.contains_eq_mem, decide_eq_true_eq] at this
+            exact hno 60 this rfl
+        · subst e; simp [endTok]
+      | void => simp [tokensOf] at ht; subst ht; simp [startTok]
+      | selfClosing => simp [tokensOf] at ht; subst ht; simp [selfTok]
+      | normal =>
+        simp only at h
+        simp only [tokensOf, List.mem_cons, List.mem_append, List.not_mem_nil, or_false] at ht
+        rcases ht with e | e | e
+        · subst e; simp [startTok]
+        · exact SimpleL_noLt cs h.2.2.2 t e
+        · subst e; simp [endTok]
+  theorem SimpleL_noLt : ∀ (ns : List Node), SimpleL L ns →
+      ∀ t ∈ tokensOfList vtU ns, ¬(t.kind = .text ∧ hasLt t.raw = true)
+    | [], _, t, ht => by simp [tokensOfList] at ht
+    | n :: ns, h, t, ht => by
+      unfold SimpleL at h
+      simp only [tokensOfList, List.mem_append] at ht
+      rcases ht with e | e
+      · exact SimpleN_noLt n h.1 t e
+      · exact SimpleL_noLt ns h.2.2 t e
+end
+
+/-- … hence the bridge hypothesis `TokAgree` of the token-level theorems (given valid UTF-8) -/
+theorem tokAgree_of_laws (doc : List Node) (hs : SimpleL L doc)
+    (hu : utf8Split (serializeList doc) = some (serializeList doc, [])) :
+    TokAgree htmlTokenize vtU doc :=
+  ⟨tokenize_serialize_of_laws L doc hs, hu, splitHeld_of_noLt ⟨[], [], []⟩ rfl (SimpleL_noLt L doc hs)⟩
+
+end
+
+/-- several filters on `Simple` documents: every filter in its domain on the document it sees, which is again `Simple`
+(the inserted values are texts / comments of the grammar), valid UTF-8 and not empty -/
+def StepsSimple (L : Laws) (ev : Bytes → Bytes → Bool) : List Node → List BodyFilter → Prop
+  | _, [] => True
+  | d, f :: fs =>
+    SimpleL L d ∧ utf8Split (serializeList d) = some (serializeList d, []) ∧ InDomain htmlTokenize vtU d f ∧
+    (fs ≠ [] → serializeList (editD (decOf ev) d f) ≠ []) ∧ StepsSimple L ev (editD (decOf ev) d f) fs
+
+theorem stepsOK_of_simple (L : Laws) (ev : Bytes → Bytes → Bool) :
+    ∀ (fs : List BodyFilter) (d : List Node), StepsSimple L ev d fs → StepsOK htmlTokenize ev vtU d fs
+  | [], _, _ => trivial
+  | f :: fs, d, h => by
+    obtain ⟨hs, hu, hd, hne, hrest⟩ := h
+    exact ⟨hd, tokAgree_of_laws L d hs hu, hne, stepsOK_of_simple L ev fs _ hrest⟩
+
+/-! ### from facts about `next` on a fresh tokenizer to `Closed` -/
+
+/-- what a closed-form lemma says about `next (Tokenizer.new x.toArray)` -/
+structure FreshFacts (x : Bytes) (k : TokenType) : Prop where
+  token : (next (Tokenizer.new x.toArray)).token = k
+  rawE : (next (Tokenizer.new x.toArray)).rawE = x.length
+  err : (next (Tokenizer.new x.toArray)).err = false
+  rawTag : (next (Tokenizer.new x.toArray)).rawTag = []
+  cdata : (next (Tokenizer.new x.toArray)).allowCdata = true
+
+theorem rawL_fresh {x : Bytes} {k : TokenType} (f : FreshFacts x k) :
+    rawL (next (Tokenizer.new x.toArray)) = x := by
+  have hs : (next (Tokenizer.new x.toArray)).rawS = 0 := next_rawS' _ (inv_new _)
+  have hb : (next (Tokenizer.new x.toArray)).buf = x.toArray := next_buf' _ (inv_new _)
+  unfold rawL
+  rw [hs, f.rawE, hb]
+  simp
+
+/-- a comment / declaration piece -/
+theorem closed_of_fresh_other {x : Bytes} {k : TokenType} (hx : x ≠ []) (hk : k = .comment ∨ k = .doctype)
+    (f : FreshFacts x k) : Closed x [⟨.other, x, []⟩] := by
+  have inv1 := next_inv' _ (inv_new x.toArray)
+  have hstep : tgStep (Tokenizer.new x.toArray) = .tok ⟨.other, x, []⟩ (next (Tokenizer.new x.toArray)) := by
+    unfold tgStep
+    simp only
+    rw [raw_eq _ inv1, rawL_fresh f, inv1.ok.panic, inv1.ok.hang, inv1.ok.utf8, f.token]
+    rcases hk with rfl | rfl <;> simp [Tokenizer.isTagLike, kindOf]
+  refine ⟨next (Tokenizer.new x.toArray), ?_, f.rawE, f.err, f.rawTag, f.cdata, ?_⟩
+  · simp [closedEnd, hstep, f.err]
+  · exact List.length_pos_iff.mpr hx
+
+/-- a tag piece whose data span is `disp` -/
+theorem closed_of_fresh_tag {x disp : Bytes} {k : TokenType} {a : Nat}
+    (hk : k = .startTag ∨ k = .endTag ∨ k = .selfClosing) (f : FreshFacts x k)
+    (hdS : (next (Tokenizer.new x.toArray)).dataS = a)
+    (hdE : (next (Tokenizer.new x.toArray)).dataE = a + disp.length)
+    (hslice : (x.drop a).take disp.length = disp) (hne : disp ≠ []) (hascii : ∀ b ∈ disp, b < 128)
+    (hx : x ≠ []) :
+    Closed x [⟨kindOf k, x, lowerName disp⟩] := by
+  have inv1 := next_inv' _ (inv_new x.toArray)
+  have sp1 := (next_post _ (inv_new x.toArray)).spans
+  have hb : (next (Tokenizer.new x.toArray)).buf = x.toArray := next_buf' _ (inv_new _)
+  have htl : Tokenizer.isTagLike (next (Tokenizer.new x.toArray)).token = true := by
+    rw [f.token]; rcases hk with rfl | rfl | rfl <;> rfl
+  have hdata : dataL (next (Tokenizer.new x.toArray)) = disp := by
+    have hle : a + disp.length ≤ x.length := by
+      have := sp1.dataHi; rw [hdE, f.rawE] at this; exact this
+    unfold dataL
+    rw [hdS, hdE, hb]
+    conv => rhs; rw [← hslice]
+    simp [List.take_drop, Nat.min_eq_left hle]
+  obtain ⟨hres, inv2, _, _, _, _⟩ := tagName_spec _ inv1 sp1 htl
+  rw [hdata, validUtf8_of_ascii _ hascii, if_pos rfl] at hres
+  have hstep : ∃ t2, tgStep (Tokenizer.new x.toArray) = .tok ⟨kindOf k, x, lowerName disp⟩ t2 ∧
+      t2.rawE = x.length ∧ t2.err = false ∧ t2.rawTag = [] ∧ t2.allowCdata = true := by
+    unfold tgStep
+    simp only
+    rw [raw_eq _ inv1, rawL_fresh f, inv1.ok.panic, inv1.ok.hang, inv1.ok.utf8]
+    have hne' : ((next (Tokenizer.new x.toArray)).token == TokenType.error) = false := by
+      rw [f.token]; rcases hk with rfl | rfl | rfl <;> rfl
+    simp only [Bool.or_self, Bool.false_eq_true, if_false, hne', htl, if_true]
+    rcases htn : tagName (next (Tokenizer.new x.toArray)) with ⟨res, t2⟩
+    rw [htn] at hres
+    simp only at hres
+    subst hres
+    refine ⟨t2, by rw [f.token]; rfl, ?_⟩
+    have ht2 : t2 = (tagName (next (Tokenizer.new x.toArray))).2 := by rw [htn]
+    rw [ht2]
+    rcases tagName_cases' (next (Tokenizer.new x.toArray)) with h | h | h
+    · rw [htn] at h; simp at h
+    · rw [h]; exact ⟨f.rawE, f.err, f.rawTag, f.cdata⟩
+    · rw [h]; exact ⟨f.rawE, f.err, f.rawTag, f.cdata⟩
+  obtain ⟨t2, hst, h1, h2, h3, h4⟩ := hstep
+  refine ⟨t2, ?_, h1, h2, h3, h4, ?_⟩
+  · simp [closedEnd, hst, f.err]
+  · exact List.length_pos_iff.mpr hx
+
+/-! ### one iteration of the token loop from facts about `next` on ANY state (for pieces of several tokens) -/
+
+/-- the buffer holds the bytes `l` at position `p` (same as `Tokenizer.Has` of W5's `Proofs/HtmlClosed.lean`) -/
+def HasA (buf : Array Nat) (p : Nat) (l : Bytes) : Prop := ∀ i (h : i < l.length), buf[p + i]? = some l[i]
+
+theorem extract_of_hasA {buf : Array Nat} {p : Nat} {l : Bytes} (h : HasA buf p l) :
+    (buf.extract p (p + l.length)).toList = l := by
+  apply List.ext_getElem?
+  intro i
+  simp only [Array.toList_extract, List.extract_eq_take_drop, Nat.add_sub_cancel_left]
+  by_cases hi : i < l.length
+  · have := h i hi
+    rw [List.getElem?_eq_getElem hi, ← this, List.getElem?_take_of_lt hi, List.getElem?_drop]
+    simp
+  · have h1 : l[i]? = none := by simp; omega
+    rw [h1, List.getElem?_take_eq_none (by omega)]
+
+theorem hasA_toArray (x : Bytes) : HasA x.toArray 0 x := by
+  intro i hi; simp
+
+theorem HasA.sub {buf : Array Nat} {p : Nat} {x : Bytes} (h : HasA buf p x) (a n : Nat) :
+    HasA buf (p + a) ((x.drop a).take n) := by
+  intro i hi
+  simp only [List.length_take, List.length_drop] at hi
+  have := h (a + i) (by omega)
+  rw [show p + a + i = p + (a + i) by omega, this]
+  simp [List.getElem_take, List.getElem_drop]
+
+/-- what a closed-form lemma says about `next t` when the piece `x` stands at `t.rawE` -/
+structure StepFacts (t : Tokenizer) (k : TokenType) (x : Bytes) (tag : List Nat) : Prop where
+  has : HasA t.buf t.rawE x
+  token : (next t).token = k
+  rawE : (next t).rawE = t.rawE + x.length
+  err : (next t).err = false
+  rawTag : (next t).rawTag = tag
+  cdata : (next t).allowCdata = t.allowCdata
+
+theorem rawL_of_facts {t : Tokenizer} {k : TokenType} {x : Bytes} {tag : List Nat} (it : Inv t)
+    (f : StepFacts t k x tag) : rawL (next t) = x := by
+  unfold rawL
+  rw [next_rawS' t it, f.rawE, next_buf' t it]
+  exact extract_of_hasA f.has
+
+/-- a token that is not a tag (text, comment, doctype) -/
+theorem step_plain {t : Tokenizer} {k : TokenType} {x : Bytes} {tag : List Nat} (it : Inv t)
+    (f : StepFacts t k x tag) (hk : k = .text ∨ k = .comment ∨ k = .doctype) :
+    tgStep t = .tok ⟨kindOf k, x, []⟩ (next t) := by
+  have inv1 := next_inv' t it
+  unfold tgStep
+  simp only
+  rw [raw_eq _ inv1, rawL_of_facts it f, inv1.ok.panic, inv1.ok.hang, inv1.ok.utf8, f.token]
+  rcases hk with rfl | rfl | rfl <;> simp [Tokenizer.isTagLike, kindOf]
+
+/-- a tag token whose data span is `disp`, `a` bytes into the piece -/
+theorem step_tag {t : Tokenizer} {k : TokenType} {x disp : Bytes} {tag : List Nat} {a : Nat} (it : Inv t)
+    (f : StepFacts t k x tag) (hk : k = .startTag ∨ k = .endTag ∨ k = .selfClosing)
+    (hdS : (next t).dataS = t.rawE + a) (hdE : (next t).dataE = t.rawE + a + disp.length)
+    (hslice : (x.drop a).take disp.length = disp) (hascii : ∀ b ∈ disp, b < 128) :
+    ∃ t2, tgStep t = .tok ⟨kindOf k, x, lowerName disp⟩ t2 ∧ Inv t2 ∧ t2.rawE = t.rawE + x.length ∧
+      t2.err = false ∧ t2.rawTag = tag ∧ t2.allowCdata = t.allowCdata ∧ t2.buf = t.buf := by
+  have inv1 := next_inv' t it
+  have sp1 := (next_post t it).spans
+  have hb : (next t).buf = t.buf := next_buf' t it
+  have htl : Tokenizer.isTagLike (next t).token = true := by
+    rw [f.token]; rcases hk with rfl | rfl | rfl <;> rfl
+  have hdata : dataL (next t) = disp := by
+    unfold dataL
+    rw [hdS, hdE, hb]
+    have := extract_of_hasA (f.has.sub a disp.length)
+    rw [hslice] at this
+    exact this
+  obtain ⟨hres, inv2, _, _, _, hbuf2⟩ := tagName_spec _ inv1 sp1 htl
+  rw [hdata, validUtf8_of_ascii _ hascii, if_pos rfl] at hres
+  unfold tgStep
+  simp only
+  rw [raw_eq _ inv1, rawL_of_facts it f, inv1.ok.panic, inv1.ok.hang, inv1.ok.utf8]
+  have hne' : ((next t).token == TokenType.error) = false := by
+    rw [f.token]; rcases hk with rfl | rfl | rfl <;> rfl
+  simp only [Bool.or_self, Bool.false_eq_true, if_false, hne', htl, if_true]
+  rcases htn : tagName (next t) with ⟨res, t2⟩
+  rw [htn] at hres inv2 hbuf2
+  simp only at hres inv2 hbuf2
+  subst hres
+  refine ⟨t2, by rw [f.token]; rfl, inv2, ?_⟩
+  have ht2 : t2 = (tagName (next t)).2 := by rw [htn]
+  have hfields : t2.rawE = (next t).rawE ∧ t2.err = (next t).err ∧ t2.rawTag = (next t).rawTag ∧
+      t2.allowCdata = (next t).allowCdata := by
+    rw [ht2]
+    rcases tagName_cases' (next t) with h | h | h
+    · rw [htn] at h; simp at h
+    · rw [h]; exact ⟨rfl, rfl, rfl, rfl⟩
+    · rw [h]; exact ⟨rfl, rfl, rfl, rfl⟩
+  exact ⟨by rw [hfields.1, f.rawE], by rw [hfields.2.1, f.err], by rw [hfields.2.2.1, f.rawTag],
+    by rw [hfields.2.2.2, f.cdata], hbuf2.trans hb⟩
+
+theorem closedEnd_cons {u u1 : Tokenizer} {k : Tok} {ks : List Tok} (h : tgStep u = .tok k u1)
+    (he : (next u).err = false) : closedEnd u (k :: ks) = closedEnd u1 ks := by
+  simp [closedEnd, h, he]
 
 end Rio.Filter
